@@ -280,7 +280,7 @@ def line_features(hexbytes, intel_text):
     feats = set()
     i = 0
     while i < len(b) and b[i] in (0x66, 0x67, 0xf0, 0xf2, 0xf3, 0x26, 0x2e, 0x36, 0x3e, 0x64, 0x65):
-        feats.add({0x66: 'os16', 0x67: 'as16', 0xf0: 'lock', 0xf2: 'f2', 0xf3: 'f3'}.get(b[i], 'segpfx'))
+        feats.add({0x66: 'os16', 0x67: 'as16', 0xf0: 'lock', 0xf2: 'f2', 0xf3: 'f3', 0x3e: 'dspfx'}.get(b[i], 'segpfx'))
         i += 1
     for n in re.findall(r'[a-z]+[0-9]*', (intel_text or '').lower()):
         if re.fullmatch(r'cr[0-9]', n):
